@@ -165,30 +165,33 @@ pub enum RunErr {
     Inconclusive(String),
 }
 
-enum Settle {
+pub enum Settle {
     AtGate(i32, Point),
     Idle,
     Dead,
     Timeout,
 }
 
-struct Runner<'a> {
-    case: &'a SchedCase,
-    st: Store,
-    m: Model,
-    models: Vec<Model>,
-    recs: Vec<Rec>,
-    steps: Vec<StepRec>,
-    flushes: Vec<FlushRec>,
-    worker_tid: Option<i32>,
-    worker_dead: bool,
-    stall_points: u64,
-    step_ix: usize,
-    closed_seen: std::collections::BTreeSet<u64>,
-    inst: u32,
+pub struct Runner<'a> {
+    pub case: &'a SchedCase,
+    pub st: Store,
+    pub m: Model,
+    pub models: Vec<Model>,
+    pub recs: Vec<Rec>,
+    pub steps: Vec<StepRec>,
+    pub flushes: Vec<FlushRec>,
+    pub worker_tid: Option<i32>,
+    pub worker_dead: bool,
+    pub stall_points: u64,
+    pub step_ix: usize,
+    pub closed_seen: std::collections::BTreeSet<u64>,
+    pub inst: u32,
 }
 
-fn settle_raw(rl: Option<&raft_log::RaftLog<crate::store::V>>, worker_tid: &mut Option<i32>) -> Settle {
+/// Custom ending of a scheduled run (replaces "drain the worker, close the store").
+pub type Tail<'t> = &'t mut dyn FnMut(&mut Runner, &mut dyn Observer) -> Result<(), RunErr>;
+
+pub fn settle_raw(rl: Option<&raft_log::RaftLog<crate::store::V>>, worker_tid: &mut Option<i32>) -> Settle {
     let t0 = util::now_s();
     let mut spins = 0u32;
     loop {
@@ -233,7 +236,7 @@ fn sviol(prop: &str, sig: &str, text: String, case: &SchedCase, step: usize) -> 
 }
 
 impl<'a> Runner<'a> {
-    fn settle(&mut self) -> Settle {
+    pub fn settle(&mut self) -> Settle {
         settle_raw(self.st.rl.as_ref(), &mut self.worker_tid)
     }
 
@@ -246,7 +249,7 @@ impl<'a> Runner<'a> {
     }
 
     /// Let the worker perform up to `n` gated calls (DRAIN = until idle), observing at every stall.
-    fn release(&mut self, n: u8, obs: &mut dyn Observer, after_op: bool) -> Result<(), RunErr> {
+    pub fn release(&mut self, n: u8, obs: &mut dyn Observer, after_op: bool) -> Result<(), RunErr> {
         let mut left = n;
         let mut first = after_op;
         loop {
@@ -290,7 +293,7 @@ impl<'a> Runner<'a> {
         Ok(())
     }
 
-    fn do_flush(&mut self, cb: bool) -> (u64, Outcome) {
+    pub fn do_flush(&mut self, cb: bool) -> (u64, Outcome) {
         // chunk files on disk that the store no longer lists are scheduled for removal; those not
         // yet attributed to an earlier flush call are sent to the worker by this one
         let stat = self.st.rl().stat();
@@ -313,12 +316,17 @@ impl<'a> Runner<'a> {
 
 /// Run a scheduled case. The directory is left in place (caller removes it).
 pub fn run(case: &SchedCase, obs: &mut dyn Observer, dir: &str) -> Result<RunRec, RunErr> {
+    run_with_tail(case, obs, dir, None, 0, 0)
+}
+
+/// As `run`, with a custom ending and additional gated roles / call kinds.
+pub fn run_with_tail(case: &SchedCase, obs: &mut dyn Observer, dir: &str, tail: Option<Tail>, extra_roles: u8, extra_kinds: u16) -> Result<RunRec, RunErr> {
     trace::reset_acks();
     trace::begin(dir);
     trace::set_faults(case.faults.iter().map(|f| f.to_fault()).collect());
     let kinds = Sk::Write.bit() | Sk::Sync.bit() | Sk::Unlink.bit() | if case.gate_acks { Sk::Ack.bit() } else { 0 };
-    trace::gate_enable(Role::Worker.bit(), kinds);
-    let res = run_inner(case, obs, dir);
+    trace::gate_enable(Role::Worker.bit() | extra_roles, kinds | extra_kinds);
+    let res = run_inner(case, obs, dir, tail);
     trace::gate_disable();
     let tr = trace::end();
     match res {
@@ -331,7 +339,7 @@ pub fn run(case: &SchedCase, obs: &mut dyn Observer, dir: &str) -> Result<RunRec
     }
 }
 
-fn run_inner(case: &SchedCase, obs: &mut dyn Observer, dir: &str) -> Result<RunRec, RunErr> {
+fn run_inner(case: &SchedCase, obs: &mut dyn Observer, dir: &str, tail: Option<Tail>) -> Result<RunRec, RunErr> {
     let h = &case.hist;
     let st = match Store::open(dir, &h.cfg, 1) {
         Ok(s) => s,
@@ -440,11 +448,15 @@ fn run_inner(case: &SchedCase, obs: &mut dyn Observer, dir: &str) -> Result<RunR
     }
     // let the worker finish whatever is queued
     r.step_ix = h.steps.len();
-    if !r.worker_dead {
-        r.release(DRAIN, obs, false)?;
-    }
-    if !r.worker_dead && r.st.rl.is_some() {
-        obs.at_end(&r.st, &r.m).map_err(RunErr::Viol)?;
+    if let Some(t) = tail {
+        t(&mut r, obs)?;
+    } else {
+        if !r.worker_dead {
+            r.release(DRAIN, obs, false)?;
+        }
+        if !r.worker_dead && r.st.rl.is_some() {
+            obs.at_end(&r.st, &r.m).map_err(RunErr::Viol)?;
+        }
     }
     let final_cfg = r.st.cfg.clone();
     let worker_dead = r.worker_dead;
